@@ -179,7 +179,7 @@ SPECS["Zones::merge"] = {"props": ["C12"], "depub": True, "rewrites": [R3],
             forall|j: int| 0 <= j < it__.index@ && old(self).zones@.contains_key(#[trigger] it__.seq()[j].0) ==> zone_merged(old(self).zones@[it__.seq()[j].0], it__.seq()[j].1, self.zones@[it__.seq()[j].0]),""",
         "entry": "broadcast use vstd::std_specs::hash::group_hash_axioms, axiom_dn_key_model, axiom_borrowed_key_updated;"}},
 }
-SPECS["Hosts::merge"] = {"props": ["C12"], "rewrites": [R3],
+SPECS["Hosts::merge"] = {"props": ["C12"], "rewrites": [R3, ("R3b", r"(\w+(?:\.\w+)*)\.extend\((\w+(?:\.\w+)*)\);", r"shim_hashmap_extend(&mut \1, \2);")], "loops_if_present": True,
     "contract": """    ensures
         final(self).v4@ == old(self).v4@.union_prefer_right(other.v4@), // [C12:hosts_later_file_wins_v4]
         final(self).v6@ == old(self).v6@.union_prefer_right(other.v6@), // [C12:hosts_later_file_wins_v6]""",
@@ -204,7 +204,7 @@ SPECS["Hosts::merge"] = {"props": ["C12"], "rewrites": [R3],
             forall|k: DomainName| #![trigger self.v6@[k]] old(self).v6@.contains_key(k) && !(exists|j: int| 0 <= j < jt__.index@ && #[trigger] jt__.seq()[j].0 == k) ==> self.v6@[k] == old(self).v6@[k],""",
               "entry": "broadcast use vstd::std_specs::hash::group_hash_axioms, axiom_dn_key_model;"},
     },
-    "anchors": [{"after": "for (name, address) in other.v6", "at": "before",
+    "anchors": [{"after": "for (name, address) in other.v6", "at": "before", "with_loops": True,
                  "proof": "assert(self.v4@ =~= old(self).v4@.union_prefer_right(other.v4@));"}],
 }
 
